@@ -7,6 +7,13 @@ ROOT = os.path.dirname(os.path.dirname(os.path.abspath(__file__)))
 path = os.path.join(ROOT, "seeded", "RESULTS.json")
 res = json.load(open(path)) if os.path.exists(path) else {}
 NOTES = {
+    "C17_m1": "first two runs: missed by C17 (1 of 24 scenarios had a root ls-subscription; and a server that died was explained as every client closing); C17 strengthened: server-initiated closes need a reason in the specification, more (root) ls-subscriptions; re-run: caught",
+    "C17_m2": "first three runs: missed by C17 (the specification could put the session's end after the witness' last look); strengthened: the end of a session is processed within a grace period after its connection ended, the witness pauses and then takes stock (session count, locks); re-run: caught",
+    "C15_m1": "caught in the first run, missed in a second one (needed a token that leaves the delete privilege out AND a delete request under a write grant: rare in the random scenarios); C15 strengthened with deterministic missing-privilege scenarios; re-run: caught",
+    "C02_m2": "a change in the client library's update/swap: the server-side check C02 cannot see it; C20 drives swap under contention and catches it",
+    "C18_m1": "C18 was extended (tiny writer queue, bursts without pauses) after reading the seed's description and before its first run",
+    "C18_m2": "C18 was extended (grave goods that cover willed keys) after reading the seed's description and before its first run",
+    "C16_m2": "C16's schedules were extended with repeated values after reading the seed's description; the first run was aborted (linear search for the failing schedule), the check now bisects",
     "C04_m2": "first run: missed by C04 (caught by C03); C04 strengthened with background subscriptions next to the pattern under test; re-run: caught by C04",
     "C10_m2": "first run: missed by C10; C10 extended with repeated content (mutate-to an earlier generation: ABA of the checksum file); re-run: caught",
     "C09_m1": "first run: missed by C09 (no willed key lay inside a buried sub tree); MC_C09 and the generator changed so that grave goods cover willed keys; re-run: caught",
